@@ -77,6 +77,7 @@ func c09Main(e *Env) (*res.Result, error) {
 		c := specgen.NewCtx(t, disabled)
 		c.NeedClient = true
 		bf := rapid.SampledFrom(forms).Draw(t, "baseform")
+		c.RealisticHeaders = []string{"Content-Type", "Accept", "Accept-Language", "If-None-Match", "X-Request-Id"}
 		d := c.ParamsDoc(true, true)
 		d.Servers = bf.Servers
 		// half of the specs carry security (bearer / api keys in header and query, globally
